@@ -356,9 +356,16 @@ def _sequential_uses(ck, P, cfg):
         ck.inconclusive("C17.7", inst, f.where, "the thread-local phase variable was not recognised", cfg)
         return
     pname = statics[0].name
-
-    class Cell:
-        pass
+    # the interpretation models ONE kind of shared object: the counters the arrivals increment.  Anything else that is shared
+    # (a sense flag, a generation number written by the last arriver) is outside the model: inconclusive, never an alarm.
+    ats = Q.atomics(f)
+    rmw_keys = {X.show(X.strip(a.children[0])) for a in ats if Q.atomic_kind(a) == "rmw"}
+    other = [a for a in ats if Q.atomic_kind(a) in ("store", "other") or X.show(X.strip(a.children[0])) not in rmw_keys]
+    shared_plain = [n for n in f.walk() if n.k == "DeclRefExpr" and n.d.get("sc") in ("file_static", "global", "extern") and X.is_write_target(n)]
+    if not rmw_keys or other or shared_plain:
+        ck.inconclusive("C17.7", inst, f.where, "the barrier shares state besides its arrival counters (%s): not the kind of algorithm this interpretation models" % (
+            X.show(other[0])[:50] if other else (shared_plain[0].name if shared_plain else "no arrival RMW")), cfg)
+        return
 
     def call(phase, cells, T, load_value=None):
         """One thread runs the barrier body: cells = {counter text: value}.  load_value None: atomic loads are undetermined (both ways);
